@@ -17,6 +17,7 @@ import (
 	"strings"
 	"sync"
 
+	rconfig "github.com/honeycombio/refinery/config"
 	"github.com/honeycombio/refinery/types"
 
 	"verif/engine/enumx"
@@ -68,7 +69,10 @@ type caseT struct {
 	order []int // slot indices of the present keys, in wire / iteration order
 }
 
-type config struct{ T, P []string }
+// config: TraceNames, ParentNames and K = the sampler's key fields (the fields the wire-bytes extraction memoizes
+// for the sampler; they may overlap with the ID fields: a dynamic sampler keyed on a trace-ID field, a rule
+// condition on trace.parent_id)
+type config struct{ T, P, K []string }
 
 func buildConfigs(thorough bool) []config {
 	ts := [][]string{{tNames[0]}, {tNames[0], tNames[1]}, {tNames[1], tNames[0]}, {tNames[0], tNames[1], tNames[2]}, {tNames[2], tNames[1], tNames[0]}, {}}
@@ -78,8 +82,16 @@ func buildConfigs(thorough bool) []config {
 		for pi, p := range ps {
 			// quick: every TraceNames list with both parent fields, plus the two other ParentNames lists with one TraceNames list
 			if thorough || pi == 0 || len(t) == 2 && t[0] == tNames[0] {
-				out = append(out, config{t, p})
+				out = append(out, config{t, p, nil})
 			}
+		}
+	}
+	// sampler key fields that are ID fields as well (and one that is not)
+	ks := [][]string{{pNames[0]}, {tNames[0]}, {pNames[1], tNames[1], "case"}, {"meta.trace_id", "meta.signal_type"}}
+	for _, k := range ks {
+		out = append(out, config{ts[1], ps[0], k})
+		if thorough {
+			out = append(out, config{ts[4], ps[0], k}, config{ts[3], ps[1], k})
 		}
 	}
 	return out
@@ -323,6 +335,7 @@ func main() {
 		cfg := configs[jb.cfg]
 		n.Cfg.Mux.Lock()
 		n.Cfg.TraceIdFieldNames, n.Cfg.ParentIdFieldNames = cfg.T, cfg.P
+		n.Cfg.GetSamplerTypeVal = &rconfig.DynamicSamplerConfig{SampleRate: 1, FieldList: cfg.K}
 		n.Cfg.Mux.Unlock()
 
 		var active []int
